@@ -99,6 +99,8 @@ class PandasCheckBackend(BaseCheckBackend):
             if self.check.ignore_na and check_obj.hasnans:
                 return check_obj.dropna()
             return check_obj
+        if self.check.ignore_na and check_obj.hasnans:
+            check_obj = check_obj.dropna()
         return cast(
             Dict[str, pd.Series],
             self._format_groupby_input(
@@ -115,6 +117,8 @@ class PandasCheckBackend(BaseCheckBackend):
             if self.check.ignore_na and check_obj[key].hasnans:
                 return check_obj[key].dropna()
             return check_obj[key]
+        if self.check.ignore_na and check_obj[key].hasnans:
+            check_obj = check_obj[check_obj[key].notna()]
         return cast(
             Dict[str, pd.DataFrame],
             self._format_groupby_input(
